@@ -481,7 +481,7 @@ Section Pres4.
     all: try (lazymatch goal with |- cntf is_sbwait _ <= cntf is_sbwait _ => cbn; rewrite ?cntf_app, ?cntf_opt_wake, ?cntf_wake_frames by done; cbn; lia end).
     (* the result flag of cq *)
     all: try (lazymatch goal with |- sresb _ _ = true -> sresb ?s1 _ = true =>
-              first [ rewrite (sresb_sress s s1 cq ltac:(rewrite ?sress_setstack, ?sress_settoken; reflexivity)); done
+              first [ rewrite (sresb_sress s s1 cq ltac:(rewrite ?sress_setstack, ?sress_settoken, ?sress_setkick, ?sress_kickall; reflexivity)); done
                     | rewrite sresb_setstack; intros Hs; lazymatch goal with |- sresb (setsres _ ?c0 true) _ = true =>
                         destruct (decide (cq = c0)) as [Hx|Hx]; [rewrite Hx; apply sresb_set_true; rewrite <- Hx; first [by (subst cq; eapply lookup_lt_Some)|idtac]|rewrite sresb_set_ne by done; exact Hs] end ] end).
     (* the job of cq *)
